@@ -52,6 +52,10 @@ def op_state(b):
     return ("state", b.state.value)
 
 
+def op_timer(b):
+    return b.rv_clock.fire_timer(b)
+
+
 def op_c1(b):
     return ("consume1", b.consume(1))
 
@@ -64,22 +68,44 @@ def op_rem(b):
     return ("remaining", b.remaining())
 
 
-OPS = {"allow": op_allow, "success": op_success, "failT": op_fail_t, "failS": op_fail_s, "cancel": op_cancel, "state": op_state, "c1": op_c1, "c2": op_c2, "rem": op_rem}
+OPS = {"timer": op_timer, "allow": op_allow, "success": op_success, "failT": op_fail_t, "failS": op_fail_s, "cancel": op_cancel, "state": op_state, "c1": op_c1, "c2": op_c2, "rem": op_rem}
 BREAKER_OPS = ["allow", "success", "failT", "failS", "cancel", "state"]
 BUDGET_OPS = ["c1", "c2", "rem"]
 
 
 # ------------------------------------------------------------------ initial states
-def mk_breaker(init, world):
+class LockedClock:
+    """A simulated clock with its own mutex (advance() fires timers while holding it).  The breaker calls it; a timer calls the breaker."""
+
+    def __init__(self, world):
+        self.world = world
+        self.lock = sched.new_lock() or threading.Lock()
+
+    def __call__(self):
+        with self.lock:
+            return self.world.t
+
+    def fire_timer(self, b):
+        # what advance() does with a due timer whose callback looks at the breaker
+        with self.lock:
+            return ("timer", b.state.value)
+
+
+def mk_breaker(init, world, locked_clock=False):
     def make():
         world.t = T0
-        b = CircuitBreaker(failure_threshold=2, window_s=10.0, recovery_timeout_s=5.0, class_thresholds={EC.SERVER_ERROR: 2})
+        kw = {}
+        if locked_clock:
+            kw["clock"] = LockedClock(world)
+        b = CircuitBreaker(failure_threshold=2, window_s=10.0, recovery_timeout_s=5.0, class_thresholds={EC.SERVER_ERROR: 2}, **kw)
+        if locked_clock:
+            b.rv_clock = kw["clock"]
         if init == "closedC":
             # the class threshold is the only one within reach
-            b = CircuitBreaker(failure_threshold=5, window_s=10.0, recovery_timeout_s=5.0, class_thresholds={EC.SERVER_ERROR: 2})
+            b = CircuitBreaker(failure_threshold=5, window_s=10.0, recovery_timeout_s=5.0, class_thresholds={EC.SERVER_ERROR: 2}, **kw)
         elif init == "near3":
             # threshold 3, one counted failure so far: two more racing failures must open the circuit exactly once
-            b = CircuitBreaker(failure_threshold=3, window_s=10.0, recovery_timeout_s=5.0, class_thresholds={EC.SERVER_ERROR: 2})
+            b = CircuitBreaker(failure_threshold=3, window_s=10.0, recovery_timeout_s=5.0, class_thresholds={EC.SERVER_ERROR: 2}, **kw)
             b.record_failure(EC.TRANSIENT)
         elif init == "closed":
             pass
@@ -169,13 +195,15 @@ def sequential_spec(make, program, world):
     out = set()
     tags = [i for i, p in enumerate(program) for _ in p]
     for perm in set(itertools.permutations(tags)):
-        obj = make()
-        res = [[] for _ in program]
-        pos = [0] * len(program)
-        for i in perm:
-            res[i].append(OPS[program[i][pos[i]]](obj))
-            pos[i] += 1
-        out.add((tuple(tuple(r) for r in res), fingerprint(obj, world)))
+        # scheduler-aware locks here too: a thread that re-enters a lock it holds is reported instead of hanging the check
+        with sched.sequential():
+            obj = make()
+            res = [[] for _ in program]
+            pos = [0] * len(program)
+            for i in perm:
+                res[i].append(OPS[program[i][pos[i]]](obj))
+                pos[i] += 1
+            out.add((tuple(tuple(r) for r in res), fingerprint(obj, world)))
     return out
 
 
@@ -215,6 +243,13 @@ def programs_for(kind, rng, n):
             ("near~", [["failT"], ["failS"], ["failT"]]),
             ("closed~", [["failS", "failS"], ["failS", "state"]]),
             ("closed~", [["failT"], ["failT"], ["allow"]]),
+            # trailing "@": the injected clock has a mutex of its own, and a timer fired under that mutex reads the breaker's state
+            # (lock order clock -> breaker); the breaker must never call the clock while holding its own lock
+            ("expired@", [["allow"], ["timer"]]),
+            ("open@", [["allow"], ["timer"]]),
+            ("near@", [["failT"], ["timer"]]),
+            ("probing@", [["failT"], ["timer"], ["allow"]]),
+            ("closed@", [["allow", "failT"], ["timer", "timer"]]),
         ]
     else:
         fixed = [
@@ -240,9 +275,19 @@ def programs_for(kind, rng, n):
 
 def explore(ctx, kind, init, program, world, rng, bound, limit, nrandom):
     moving = init.endswith("~")
-    base_init = init.rstrip("~")
-    make = mk_breaker(base_init, world) if kind == "breaker" else mk_budget(base_init, world)
-    spec = sequential_spec(make, program, world)
+    locked_clock = init.endswith("@")
+    base_init = init.rstrip("~@")
+    make = mk_breaker(base_init, world, locked_clock) if kind == "breaker" else mk_budget(base_init, world)
+    desc = {"component": kind, "initial_state": init, "program": program}
+    try:
+        spec = sequential_spec(make, program, world)
+    except RuntimeError as x:
+        if "self-deadlock" not in str(x):
+            raise
+        ctx.viol("deadlock", f"single-threaded use already blocks: a thread asked for the component's lock while holding it ({desc})", {"desc": desc, "schedule": []})
+        return
+    if locked_clock:
+        ctx.cnt["breaker_programs_with_a_clock_that_has_its_own_lock"] += 1
     ctx.cnt["sequential_orders_run"] += len(spec)
     progs = [[OPS[o] for o in th] for th in program]
     if moving:
@@ -527,6 +572,10 @@ def work(ctx, tier):
             progs = [fp for i, fp in enumerate(fixed) if i % ctx.nshards == ctx.shard] + rnd
             for i, (init, prog) in enumerate(progs):
                 k = explore(ctx, kind, init, prog, world, rng, bound, limit, nrandom)
+                if ctx.viol_keys.get("deadlock"):
+                    # a component that blocks against itself cannot be driven any further (the real-thread stress would hang)
+                    sched.uninstall_monitor()
+                    return
                 if len(ctx.samples) < 3 and ctx.shard == 0 and k:
                     ctx.sample({"component": kind, "initial_state": init, "program": prog, "distinct_schedules_explored": k})
         fixed, rnd = moving_programs(rng, max(nprog // 4, 1))
@@ -538,6 +587,7 @@ def work(ctx, tier):
 
 def conclude(ctx):
     floors = {
+        "breaker_programs_with_a_clock_that_has_its_own_lock": (ctx.cnt["breaker_programs_with_a_clock_that_has_its_own_lock"], 5),
         "programs": (ctx.cnt["programs"], 20),
         "distinct schedules": (len(ctx.sets["schedules"]), 2000),
         "lock_contention_events": (ctx.cnt["lock_contention_events"], 1000),
@@ -608,9 +658,16 @@ def replay(data):
     world = env.World()
     with env.active(world):
         moving = d["initial_state"].endswith("~")
-        base_init = d["initial_state"].rstrip("~")
-        make = mk_breaker(base_init, world) if d["component"] == "breaker" else mk_budget(base_init, world)
-        spec = sequential_spec(make, d["program"], world)
+        base_init = d["initial_state"].rstrip("~@")
+        make = mk_breaker(base_init, world, d["initial_state"].endswith("@")) if d["component"] == "breaker" else mk_budget(base_init, world)
+        try:
+            spec = sequential_spec(make, d["program"], world)
+        except RuntimeError as x:
+            if "self-deadlock" not in str(x):
+                raise
+            print("single-threaded use:", x)
+            print("replay: violation reproduced")
+            return 1
         progs = [[OPS[o] for o in th] for th in d["program"]]
         if moving:
             def tick(b):
